@@ -30,7 +30,15 @@ def cases(tier, inst):
                 yield {"streams": ms, "uset": ui, "inst": list(inst)}
         for ms in P.stream_multisets(inst, 4, 3, cps=(1, 2), dts=(1,), iso=False, min_n=3):
             yield {"streams": ms, "uset": 0, "inst": list(inst)}
+        # contributions as large as the lattice step: streams that overlap on the real scale but not on the shifted one
+        for ms in P.stream_multisets(inst, 4, 2, cps=(1, 2), dts=(2,), iso=True):
+            yield {"streams": ms, "uset": 0, "inst": list(inst)}
+        # zero-crossing family: lattice containing 0.0 and a negative temperature
+        for ms in P.stream_multisets(A.zero_inst(inst), 4, 2, cps=(1,), dts=(0, 1), iso=True):
+            yield {"streams": ms, "uset": 0, "inst": list(A.zero_inst(inst))}
     else:
+        for ms in P.stream_multisets(A.zero_inst(inst), 4, 2, cps=(1, 2), dts=(0, 1, 2), iso=True):
+            yield {"streams": ms, "uset": 0, "inst": list(A.zero_inst(inst))}
         for ms in P.stream_multisets(inst, 4, 3, cps=(1, 2), dts=(0, 1)):
             for ui in ((0, 4) if len(ms) < 3 else (0,)):
                 yield {"streams": ms, "uset": ui, "inst": list(inst)}
